@@ -27,6 +27,7 @@ pub fn run(args: &Args) {
   let nthreads = args.u64("threads", 4) as usize;
   let delay = args.u64("delay-ns", 0);
   let seed = args.u64("seed", 1);
+  let hammer = args.u64("hammer", 3000);
   let mut out = Out::create(&args.get("out", "-"));
   vh::INIT_DELAY_NS.store(delay, std::sync::atomic::Ordering::Relaxed);
   let mut rng = Rng::new(seed);
@@ -98,6 +99,32 @@ pub fn run(args: &Args) {
         match r {
           Some((ptr, p)) => { vh::log(vh::RESP, tb, d, ptr, true); observed.push(((tb, d), seq_marker, Some(p))); }
           None => { vh::log(vh::RESP, tb, d, 0, false); observed.push(((tb, d), seq_marker, None)); }
+        }
+      }
+      // steady state: the keys this thread has already obtained once are now requested in a tight loop, interleaved over the
+      // depths, while the other threads do the same (or are still in their first uses). Whatever sits in front of the tables
+      // (a "last depth" shortcut made of several words, a per-thread slot) must keep handing out the object of the REQUESTED
+      // key. A call on a key the caller has already obtained returns the same object whenever it runs, so logging its
+      // invocation and response together after the fact is sound; only the first two calls and the anomalous ones (a probe
+      // that differs from the first probe this thread made for the key, or a panic) are logged, each judged like any response.
+      let mine: Vec<(u8, u8)> = { let mut v: Vec<(u8, u8)> = observed.iter().filter(|o| o.2.is_some()).map(|o| o.0).collect(); v.sort(); v.dedup(); v };
+      if mine.len() >= 2 {
+        let first: std::collections::HashMap<(u8, u8), Probe> = observed.iter().filter_map(|o| o.2.clone().map(|p| (o.0, p))).rev().collect();
+        let mut logged = 0;
+        for it in 0..hammer {
+          let (tb, d) = mine[(trng.below(mine.len() as u64)) as usize];
+          let r = guarded(|| if tb == vh::TABLE_LAYER { let layer = cdshealpix::nested::get_or_create(d); (layer as *const _ as usize, probe_layer(layer)) } else { (0usize, probe_c2v(d)) });
+          let anomalous = match &r { Some((_, p)) => first.get(&(tb, d)) != Some(p), None => true };
+          if anomalous || it < 2 {
+            if logged >= 50 { break; }
+            logged += 1;
+            vh::log(vh::INV, tb, d, 0, true);
+            let seq_marker = observed.len() as u64;
+            match r {
+              Some((ptr, p)) => { vh::log(vh::RESP, tb, d, ptr, true); observed.push(((tb, d), seq_marker, Some(p))); }
+              None => { vh::log(vh::RESP, tb, d, 0, false); observed.push(((tb, d), seq_marker, None)); }
+            }
+          }
         }
       }
       observed
